@@ -88,15 +88,21 @@ def M_KT(kt, tier="quick"):
 
 
 MB, MV, MS = M_KT("bytes"), M_KT("vu64"), M_KT("string")
+BIG_B = "the same with 0..3 live entries (chains of up to 3, cascades of up to 3 moves) and 5 record slots per store"
+M_BIG = {k: M("m_%s_bytes" % n, w + "; " + BIG_B, functions=f, tier="thorough", big=True, cap=2400, may_unsat=mu)
+         for k, n, w, f, mu in [("put_new", "put_new", W_PUT_NEW, F_PUT, ["value record moved", "key record moved", "relocation cascade", "moved key was"]), ("put_over", "put_over", W_PUT_OVER, F_PUT, None),
+                                ("del_hit", "del_hit", W_DEL_HIT, F_DEL, None), ("lookup", "lookup", W_LOOK, F_GET + F_FL, None), ("iter_mut", "iter_mut", "full traversal with iter_mut()", F_IT, None)]}
 M_ITER = {n: M("m_%s_bytes" % n, "full traversal with %s: every live entry exactly once with its current value, exact size_hint before every step, len() items, None twice after the end, no store write" % d, functions=F_IT)
           for n, d in [("iter_mut", "iter_mut()"), ("iter", "iter()"), ("into_iter", "into_iter()"), ("keys", "keys()"), ("values", "values()")]}
 M_ITER_X = [M("m_iter_mut_vu64", "traversal, DbVu64 keys (decoding comparison)", functions=F_IT, tier="thorough"), M("m_keys_vu64", "keys() yields the stored key bytes, DbVu64", functions=F_IT),
             M("m_iter_string", "traversal, DbString keys", functions=F_IT), M("m_values_string", "values(), DbString keys", functions=F_IT, tier="thorough")]
 W_FL = "from a handle with nothing pending (or a freshly opened one): %s, then flush / sync_all / sync_data (solver's choice): on Ok no store holds unwritten updates, every modified file was flushed (and synced with the matching OS sync) AFTER its last write, in the order value, key, table"
-M_FLUSH = [M("m_flush_put_bytes", W_FL % "one put (new or existing key)", functions=F_FL + F_PUT), M("m_flush_del_bytes", W_FL % "one delete (present or absent key)", functions=F_FL + F_DEL),
-           M("m_flush_noop_bytes", W_FL % "no update", functions=F_FL, cap=300)]
+FAULT_COVERS = ["key store flush failed", "table flush failed"]
+OK_COVERS = ["sync_data with pending updates", "flush after an update on a clean handle", "freshly opened handle"]
+M_FLUSH = [M("m_flush_put_bytes", W_FL % "one put (new or existing key)", functions=F_FL + F_PUT, may_unsat=FAULT_COVERS), M("m_flush_del_bytes", W_FL % "one delete (present or absent key)", functions=F_FL + F_DEL, may_unsat=FAULT_COVERS),
+           M("m_flush_noop_bytes", W_FL % "no update", functions=F_FL, cap=300, may_unsat=FAULT_COVERS + ["flush after an update on a clean handle"])]
 W_FA = "%s, then flush / sync_* with the 1st, 2nd or 3rd file's flush failing: the call returns Err, get still answers like the ideal map, the handle stays dirty and a later fault-free flush leaves no unwritten update"
-M_FAULT = [M("m_fault_put_bytes", W_FA % "one put", functions=F_FL + F_PUT), M("m_fault_del_bytes", W_FA % "one delete", functions=F_FL + F_DEL)]
+M_FAULT = [M("m_fault_put_bytes", W_FA % "one put", functions=F_FL + F_PUT, may_unsat=OK_COVERS), M("m_fault_del_bytes", W_FA % "one delete", functions=F_FL + F_DEL, may_unsat=OK_COVERS)]
 F_ST = ["dbxxx.rs key_piece_size_stats", "dbxxx.rs value_piece_size_stats", "dbxxx.rs key_length_stats", "dbxxx.rs value_length_stats", "filedb/mod.rs RecordSizeStats::touch_size", "filedb/mod.rs LengthStats::touch_length"]
 M_STATS = [M("m_stats_%s_bytes" % n, "%s over a store whose slot walk yields every slot (live or free) once: counts exactly the live non-empty records; read-only" % d, functions=F_ST, cap=900)
            for n, d in [("klen", "key_length_stats"), ("vlen", "value_length_stats"), ("ksize", "key_piece_size_stats"), ("vsize", "value_piece_size_stats")]]
@@ -120,11 +126,11 @@ def B(name, what, cap=600, tier="quick", stub=False, **kw):
 
 
 W_SCAN = "bucket scan contract with a universally quantified bucket j: next_key_piece_offset(n, idx) returns (r+1, head[r]) for the least non-empty bucket r >= idx, else (>= n, 0); no arithmetic overflow, read-only, file length unchanged, all three loops terminate (unwinding assertions)"
-B_SCAN_SMALL = [B("b_scan_n%d" % n, W_SCAN, bounds="table of %d buckets, every byte of table and bitmap symbolic, EVERY start index" % n, functions=F_SCAN, cap=400) for n in (1, 2, 4, 8, 16)]
+B_SCAN_SMALL = [B("b_scan_n%d" % n, W_SCAN, bounds="table of %d buckets, every byte of table and bitmap symbolic, EVERY start index" % n, functions=F_SCAN, cap=400, may_unsat=["hit found through the bitmap"] if n <= 8 else None) for n in (1, 2, 4, 8, 16)]
 B_SCAN_G = {n: B("b_scan_g%d" % n, W_SCAN, bounds="table of %d buckets, every byte symbolic, every group-aligned start index (the unaligned path is the plain linear loop covered for n <= 16)" % n, functions=F_SCAN,
                  cap=cap, tier=tier) for n, cap, tier in [(32, 600, "quick"), (64, 900, "quick"), (128, 1200, "quick"), (256, 2400, "thorough"), (512, 3600, "thorough")]}
 W_BKT = "write_key_piece_offset(n, idx, off): bucket idx holds off as 8 bytes LE at 128 + 8*idx, its occupancy bit = (off != 0), every other bucket, every other bit, the header and the file length unchanged (universally quantified byte i)"
-B_BUCKET = {n: B("b_bucket_n%d" % n, W_BKT, bounds="table of %d buckets, all bytes, index and new head symbolic" % n, functions=F_BKT, cap=cap, tier=tier) for n, cap, tier in [(1, 300, "quick"), (4, 300, "quick"), (8, 300, "quick"), (16, 400, "quick"), (64, 900, "thorough"), (256, 1800, "thorough")]}
+B_BUCKET = {n: B("b_bucket_n%d" % n, W_BKT, bounds="table of %d buckets, all bytes, index and new head symbolic" % n, functions=F_BKT, cap=cap, tier=tier, may_unsat=["highest bit of a bitmap byte"] if n < 8 else None) for n, cap, tier in [(1, 300, "quick"), (4, 300, "quick"), (8, 300, "quick"), (16, 400, "quick"), (64, 900, "thorough"), (256, 1800, "thorough")]}
 B_API = [B("b_htx_api_n%d" % n, "HtxFile API: a key's bucket is hash mod n (placement stability), item count is the u64 at 24 and counts up / down (saturating at 0), nothing else of the header moves",
            bounds="table of %d buckets, symbolic 64-bit hash" % n, functions=["htx.rs HtxFile::read_key_piece_offset", "htx.rs HtxFile::write_key_piece_offset", "htx.rs write_item_count_up/down", "htx.rs read_item_count"], cap=900, tier=t) for n, t in [(2, "quick"), (8, "quick"), (64, "thorough")]]
 B_FILL = [B("b_fill_n%d" % n, "htx_filling_rate_per_mill = (number of non-empty buckets, per mille of n); read-only, file not extended", bounds="table of %d buckets, all bytes symbolic" % n, functions=["htx.rs HtxFile::htx_filling_rate_per_mill"], cap=600, tier=t)
@@ -178,7 +184,7 @@ R_ASSUME = ["level R: pre-state = any image of 2..4 slots that satisfies I1 (slo
 R_I1 = "I1 afterwards: every slot a complete record inside its bounds and zero-padded to exactly its end, slots tile the file, every free record on exactly the list of its size class, no slot linked twice"
 
 
-R_MEM = {"r_key_rewrite": 18, "r_key_new": 14, "r_val_rewrite": 11, "r_val_new": 9, "r_pop_large3": 5}
+R_MEM = {"r_key_rewrite_bfree": 16, "r_key_rewrite_bused": 16, "r_key_new_bfree": 13, "r_key_new_bused": 13, "r_val_rewrite_bfree": 11, "r_val_rewrite_bused": 11, "r_val_new_bfree": 9, "r_val_new_bused": 9, "r_pop_large3": 5}
 
 
 def R(name, what, fn, cap=1500, tier="quick", may_unsat=None):
@@ -192,15 +198,27 @@ R_PUSH = R("r_push", "push: the slot becomes head of the list of ITS size, linke
 R_COUNT = R("r_count", "count_of_free_piece_list = number of slots on that list, for lists of 0..3 slots incl. large slots of different sizes on the shared list; read-only", ["piece.rs VarFile::count_of_free_piece_list", "piece.rs read_free_piece_size_next"], cap=600)
 F_VW = ["val.rs VarFileValueCache::write_piece", "val.rs ValuePiece::dat_write_piece_one", "val.rs ValuePiece::encoded_piece_size", "val.rs ValueFile::add_value_piece", "val.rs read_piece_only_value", "val.rs read_piece_only_value_length"] + F_POP + ["piece.rs VarFile::push_free_piece_list"]
 W_WR = "%s with a solver-chosen length next to a free-or-used slot and a used neighbour: the record stays in place iff it fits its slot, else reuses a suitable free slot (small: exact class; large: first fit, keeping the slot's own size) if there is one, else is appended with the slot size of the released sizing rule (file grows only then); documented field order; record never exceeds its slot; old slot of a moved record freed; neighbours untouched; reads back"
-R_VREW = R("r_val_rewrite", W_WR % "ValueFile::write_piece of an existing record", F_VW, cap=2400)
-R_VNEW = R("r_val_new", W_WR % "ValueFile::add_value_piece", F_VW, cap=2400, may_unsat=["in place", "old slot pushed onto a non-empty list"])
+NOFREE = ["reused", "old slot pushed onto a non-empty list"]
+R_VREW_L = [R("r_val_rewrite_bfree", W_WR % "ValueFile::write_piece of an existing record (slot B free)", F_VW, cap=2400), R("r_val_rewrite_bused", W_WR % "ValueFile::write_piece of an existing record (slot B used)", F_VW, cap=2400, may_unsat=NOFREE)]
+R_VNEW_L = [R("r_val_new_bfree", W_WR % "ValueFile::add_value_piece (slot B free)", F_VW, cap=2400, may_unsat=["in place", "old slot pushed onto a non-empty list"]),
+            R("r_val_new_bused", W_WR % "ValueFile::add_value_piece (slot B used)", F_VW, cap=2400, may_unsat=["in place"] + NOFREE)]
 F_KW = ["key.rs VarFileKeyCache::write_piece", "key.rs KeyPiece::dat_write_piece_one", "key.rs KeyPiece::encoded_piece_size", "key.rs KeyFile::add_key_piece", "key.rs read_piece", "key.rs read_piece_only_value_offset", "key.rs read_piece_only_key_length"] + F_POP + ["piece.rs VarFile::push_free_piece_list"]
-R_KREW = R("r_key_rewrite", W_WR % "KeyFile::write_piece of an existing key record with new value offset / chain link", F_KW, cap=3000, tier="thorough")
-R_KNEW = R("r_key_new", W_WR % "KeyFile::add_key_piece", F_KW, cap=3000, tier="thorough", may_unsat=["in place", "moved: offsets needed a bigger slot"])
+R_KREW_L = [R("r_key_rewrite_bfree", W_WR % "KeyFile::write_piece of an existing key record with new value offset / chain link (slot B free)", F_KW, cap=3000, tier="thorough"),
+            R("r_key_rewrite_bused", W_WR % "KeyFile::write_piece of an existing key record (slot B used)", F_KW, cap=3000, tier="thorough", may_unsat=NOFREE)]
+R_KNEW_L = [R("r_key_new_bfree", W_WR % "KeyFile::add_key_piece (slot B free)", F_KW, cap=3000, tier="thorough", may_unsat=["in place", "moved: offsets needed a bigger slot"]),
+            R("r_key_new_bused", W_WR % "KeyFile::add_key_piece (slot B used)", F_KW, cap=3000, tier="thorough", may_unsat=["in place", "moved: offsets needed a bigger slot"] + NOFREE)]
 R_VDEL = R("r_val_delete", "delete_piece: the slot goes onto the free list of its own size as its head, file length unchanged", ["val.rs VarFileValueCache::delete_piece", "piece.rs VarFile::push_free_piece_list"], cap=600)
 R_WALK = R("r_val_walk", "sequential slot walk (PieceOffsetIter behind the slot-size statistics) over 0..3 tiled slots, free or used: every slot exactly once in address order, then None; terminates; read-only", ["piece.rs PieceOffsetIter::next_piece_offset", "val.rs PieceA for ValueFile"], cap=600)
 
 PROPS = {}
+
+
+def thorough(h):
+    """the same harness, scheduled in the thorough tier only"""
+    import copy
+    c = copy.copy(h)
+    c.tier = "thorough"
+    return c
 
 
 def prop(pid, harnesses, **kw):
@@ -222,10 +240,10 @@ prop("C09_old", [K_VSLOT, K_VSLOT_2G, K_KSLOT, K_KSLOT_16M, K_ROUNDUP],
 prop("C10", K_INT + K_BYTES, bounds="all 64-bit integers; byte keys up to 8 bytes", outside=["memcmp on byte keys longer than 8 bytes"])
 
 R_M = "M-harness rule: one inductive step of the real dbxxx.rs from an arbitrary valid state; see DESIGN 2."
-prop("C01", [MB["put_new"], MB["put_over"], MB["del_hit"], MB["del_miss"], MB["lookup"], M_SETUP] + [M_KT("vu64", "thorough")[k] for k in ("put_new", "del_miss", "lookup")] + [M_KT("string", "thorough")[k] for k in ("put_new", "put_over", "del_hit")],
+prop("C01", [MB["put_new"], MB["put_over"], MB["del_hit"], MB["del_miss"], MB["lookup"], M_SETUP, M_BIG["put_new"], M_BIG["put_over"], M_BIG["del_hit"], M_BIG["lookup"]] + [M_KT("vu64", "thorough")[k] for k in ("put_new", "del_miss", "lookup")] + [M_KT("string", "thorough")[k] for k in ("put_new", "put_over", "del_hit")],
      trusted_base=TB_COMMON + M_TB, rule=R_M, bounds=M_BOUNDS,
      outside=["histories that need more than 3 simultaneously live entries in ONE inductive step (longer histories are covered by the induction)", "rabuf's chunking and eviction (dependency)", "I/O errors of a sick file system", "values/keys longer than the tracked bytes at level M: lengths up to 2^24/2^31 are decided at levels K and R"])
-prop("C08", [MV["put_over"], MV["del_hit"], K_KGROW, H("m", "m_put_over_bytes", W_PUT_OVER, tier="thorough", cap=900, stubbing=True, bounds=M_BOUNDS, functions=F_PUT), H("m", "m_del_hit_bytes", W_DEL_HIT, tier="thorough", cap=900, stubbing=True, bounds=M_BOUNDS, functions=F_DEL)],
+prop("C08", [MB["put_over"], MB["del_hit"], K_KGROW, M_BIG["put_over"], M_BIG["del_hit"], thorough(MV["put_over"]), thorough(MV["del_hit"]), thorough(MS["put_over"])],
      trusted_base=TB_COMMON + M_TB, rule=R_M, bounds=M_BOUNDS, outside=["relocation cascades longer than the chain bound (2 at quick, 3 at thorough): the relink loop is verified for every chain of that length, longer chains repeat the same step"])
 prop("C03", M_FLUSH, trusted_base=TB_COMMON + M_TB, rule=R_M, bounds=M_BOUNDS,
      outside=["database-level FileDb::sync_all/sync_data over the name registries (BTreeMap<String,_>: see C11)", "what fsync really does; that rabuf's flush writes every dirty chunk (dependency; its byte model is validated natively)", "SIGKILL timing"])
@@ -233,7 +251,7 @@ prop("C16", M_FAULT, trusted_base=TB_COMMON + M_TB, rule=R_M, bounds=M_BOUNDS,
      outside=["that a rabuf chunk stays dirty when its write fails, RLIMIT_FSIZE / ENOSPC behaviour of the OS (dependency and kernel): the abyssiniandb part - error propagation and the dirty flag - is what is decided"])
 
 R_B = "B-harness rule: the real byte-level function on a symbolic file image."
-prop("C04", list(M_ITER.values()) + [M_ITER_X[1], M_ITER_X[2]] + B_SCAN_SMALL + [B_SCAN_G[32], B_SCAN_G[64], B_SCAN_G[128], B_SCAN_G[256], B_SCAN_G[512], M_ITER_X[0], M_ITER_X[3]],
+prop("C04", list(M_ITER.values()) + [M_ITER_X[1], M_ITER_X[2]] + B_SCAN_SMALL + [B_SCAN_G[32], B_SCAN_G[64], B_SCAN_G[128], B_SCAN_G[256], B_SCAN_G[512], M_ITER_X[0], M_ITER_X[3], M_BIG["iter_mut"]],
      trusted_base=TB_COMMON + M_TB + B_TB, rule=R_M + " " + R_B, bounds="iterators: " + M_BOUNDS + "; bucket scan: tables of 1..16 buckets with every start index, 32..128 (thorough: ..512) buckets with every group-aligned start index, all table bytes symbolic",
      outside=["modification during a traversal (excluded by the property)", "tables of more than 512 buckets: the scan code depends on n only through the loop bounds idx + 8 < n and idx < n and the 64-bucket stride, all of which are crossed at 128..512"])
 prop("C02", B_OPEN_EX + [B_OPEN_NEW] + B_OPEN_DAT + B_HDRW + [MV["lookup"], K_HASH()[0]],
@@ -257,11 +275,11 @@ prop("C14", A_ALL, trusted_base=TB_COMMON + A_TB, rule="A-harness rule: the real
 
 R_R = "R-harness rule: one real record-level call from an arbitrary I1 image built from solver variables."
 del PROPS["C09_old"]
-prop("C06", [R_POPL, R_POPS, R_PUSH, R_VDEL, R_VREW, R_WALK, K_ROUNDUP, K_LISTS, R_VNEW, R_KREW, R_KNEW, MB["del_hit"]],
+prop("C06", [R_POPL, R_POPS, R_PUSH, R_VDEL] + R_VREW_L + [R_WALK, K_ROUNDUP, K_LISTS] + R_VNEW_L + R_KREW_L + R_KNEW_L + [MB["del_hit"]],
      trusted_base=TB_COMMON + R_TB + M_TB, rule=R_R, bounds=R_ASSUME[0],
      outside=["'file size bounded for a bounded live set' follows from the per-call rule (the file grows only if no suitable free slot exists) by a counting argument in DESIGN 4 C06 (prose)", "fragmentation behaviour of first fit on the large list beyond the rule itself",
               "free lists longer than 3 entries in one inductive step"])
-prop("C09", [K_VSLOT, K_KSLOT, K_ROUNDUP, R_VREW, B_ZERO, B_ZEROL, K_VSLOT_2G, K_KSLOT_16M, R_VNEW, R_KREW, R_KNEW] + [c for c in B_CODEC if c.name in ("b_codec_vallen", "b_codec_keylen", "b_codec_size")],
+prop("C09", [K_VSLOT, K_KSLOT, K_ROUNDUP] + R_VREW_L + [B_ZERO, B_ZEROL, K_VSLOT_2G, K_KSLOT_16M] + [thorough(h) for h in R_VNEW_L] + R_KREW_L + R_KNEW_L + [c for c in B_CODEC if c.name in ("b_codec_vallen", "b_codec_keylen", "b_codec_size")],
      trusted_base=TB_COMMON + R_TB + B_TB, rule=R_R,
      bounds="sizing: value length <= 2^24 (quick) / 2^31-16 (thorough), key length <= 2^16 / 2^24, offsets < 2^56 / 2^64; record writes with neighbours: lengths <= 1300 (keys 300)",
      outside=["lengths >= 2^31 (u32 arithmetic of the crate wraps; beyond the property's 'at least 16 MiB')", "payload bytes beyond the first 3 of a record at level R (the payload is one write_all_small call; its bytes are covered by the buffer model at level B)"])
@@ -269,13 +287,13 @@ K_TOUCH = [H("k", "k_touch_size", "RecordSizeStats::touch_size keeps a strictly 
            H("k", "k_touch_length", "LengthStats::touch_length: same", cap=300, bounds="any 3 touches", functions=["filedb/mod.rs LengthStats::touch_length"])]
 prop("C17", [R_COUNT, R_WALK] + B_FILL + M_STATS + K_TOUCH, trusted_base=TB_COMMON + R_TB + B_TB + M_TB, rule=R_R + " " + R_B + " " + R_M, bounds=R_ASSUME[0] + "; tables of 2, 8 (16) buckets; " + M_BOUNDS,
      outside=["keys_count_stats (returns an empty vector by construction)", "the buf_stats feature"])
-prop("C05", [MS["put_new"], MS["put_over"], MS["del_hit"], B_BUCKET[8], B_BUCKET[16], B_API[1], R_VDEL, R_PUSH, R_VREW, B_BUCKET[64], B_BUCKET[256], R_KREW, R_KNEW],
+prop("C05", [MS["put_new"], MS["put_over"], MS["del_hit"], B_BUCKET[8], B_BUCKET[16], B_API[1], R_VDEL, R_PUSH] + [thorough(h) for h in R_VREW_L] + [B_BUCKET[64], B_BUCKET[256]] + R_KREW_L + R_KNEW_L,
      trusted_base=TB_COMMON + M_TB + B_TB + R_TB, rule="C05 is the conjunction I1 (record files, layer R) and I2 (chains, count, bitmap, value ownership: layers M and B), each asserted after one real call from an arbitrary valid state by a checker that shares no code with the crate",
      bounds=M_BOUNDS + "; " + R_ASSUME[0] + "; tables of 8, 16 (64, 256) buckets", outside=["as C01 and C06"])
 prop("C15", [MS["lookup"], MB["del_miss"], M_ITER_X[2], M_ITER["keys"]] + M_STATS[:2] + [B_SCAN_SMALL[3], B_SCAN_G[32], B_FILL[1], B_HDRR[0], R_COUNT, R_WALK, M_ITER["values"], B_SCAN_G[128]],
      trusted_base=TB_COMMON + M_TB + B_TB + R_TB, rule="every read-only entry point is run under a read-only latch in the store / buffer / file model: any write, length change or extension by a seek beyond the end is an assertion failure at the offending call",
      bounds=M_BOUNDS + "; tables of 8, 32 (128) buckets; " + R_ASSUME[0],
      outside=["whether rabuf re-writes clean chunks (it does not mark chunks dirty on reads: read from its source, not checked)", "bulk_get (= get per key: C14 shows it calls only get)"])
-prop("C18", B_HDRW + [R_PUSH, R_VREW, R_VDEL, R_POPS, B_ZERO, B_ZEROL, K_HASH()[0], MS["lookup"], R_VNEW, R_KREW, R_KNEW],
+prop("C18", B_HDRW + [R_PUSH, R_VDEL, R_POPS, B_ZERO, B_ZEROL, K_HASH()[0], MS["lookup"], R_VREW_L[0]] + [thorough(h) for h in [R_VREW_L[1]] + R_VNEW_L] + R_KREW_L + R_KNEW_L,
      trusted_base=TB_COMMON + R_TB + B_TB, rule="determinism as non-interference: the code has no clock, randomness or unordered container of its own; what is decided is that every byte the crate leaves in a slot or header is a function of the call's arguments (I1: complete records, explicit zeros to the exact slot end, from ARBITRARY stale content), that placement has no hidden input, and that read-only calls write nothing (C15)",
      bounds=R_ASSUME[0], outside=["rabuf's flush order (it sorts chunk offsets; dependency)", "process / directory independence of the OS"])
